@@ -465,8 +465,26 @@ pub fn stream_e2e(a: &Args) {
         if with_other {
             s.tally("other-type-stored");
         }
-        for _ in 0..4 {
+        for qi in 0..4 {
             let mut q = gen_query(&mut r);
+            // one query per history aims at the merge of per-flow partials under a group cap: BY the
+            // int field, LIMIT from 1 to (groups − 1), nothing else
+            let xs_distinct = {
+                let mut v: Vec<i64> = evs.iter().filter(|e| e.ty == 0).map(|e| e.x).collect();
+                v.sort();
+                v.dedup();
+                v.len()
+            };
+            if qi == 0 && xs_distinct >= 2 {
+                q.by = Some(1);
+                q.per = None;
+                q.ctx = None;
+                q.wh = None;
+                q.limit = Some(1 + r.below(xs_distinct as u64 - 1) as usize);
+                q.metrics.retain(|m| !matches!(m, Metric::CountUnique(3)));
+                q.metrics.push(Metric::CountAll);
+                s.tally("targeted:BY-int-LIMIT<groups");
+            }
             // OFFSET needs LIMIT (the handler rejects it otherwise)
             let want_offset = r.chance(1, 3);
             let off = r.below(3) as usize;
